@@ -150,7 +150,8 @@ class Ctx:
         if infile:
             args += ["--in", infile]
         args += list(extra)
-        p = subprocess.run(args, cwd=self.work, stdout=subprocess.PIPE, stderr=subprocess.STDOUT, text=True)
+        p = subprocess.run(args, cwd=self.work, stdout=subprocess.PIPE, stderr=subprocess.STDOUT, text=True,
+                           env=dict(os.environ, VERIF_TIER=self.tier))
         if p.returncode != 0 or not os.path.exists(out):
             sys.stderr.write(p.stdout[-4000:])
             raise ToolError("harness failed: %s (rc %d)" % (" ".join(args), p.returncode))
